@@ -112,6 +112,47 @@ def _resolve_relative(modname, level, target):
     return ".".join(base)
 
 
+DESUGARED = {}      # function name -> what the mechanical desugaring did (reported in the evidence)
+
+
+def desugar_gen_sum(fn):
+    """[L-GENSUM] mechanical desugaring, applied to the extracted AST on every run: a function whose whole body is
+           return sum(<elt> for <target> in <iter> if <cond> ...)
+    (collections.abc.Sequence.count) becomes its explicit accumulation loop
+           _acc = 0;  for <target> in <iter>:  if <cond>: _acc += <elt>;  return _acc
+    Trusted: `sum` over a one-generator expression starts from 0 and adds the selected elements in iteration order
+    (Python language / built-in semantics).  Nothing else of the function is changed; any other shape is left alone
+    (and then stays outside the executed subset)."""
+    body = strip_docstring(list(fn.body))
+    if len(body) != 1 or not isinstance(body[0], ast.Return):
+        return False
+    v = body[0].value
+    if not (isinstance(v, ast.Call) and isinstance(v.func, ast.Name) and v.func.id == "sum" and len(v.args) == 1
+            and not v.keywords and isinstance(v.args[0], ast.GeneratorExp) and len(v.args[0].generators) == 1
+            and not v.args[0].generators[0].is_async):
+        return False
+    g = v.args[0].generators[0]
+    acc = "_acc"
+    add = ast.AugAssign(target=ast.Name(id=acc, ctx=ast.Store()), op=ast.Add(), value=v.args[0].elt)
+    inner = [add]
+    for c in reversed(g.ifs):
+        inner = [ast.If(test=c, body=inner, orelse=[])]
+    loop = ast.For(target=g.target, iter=g.iter, body=inner, orelse=[], type_comment=None)
+    new = [ast.Assign(targets=[ast.Name(id=acc, ctx=ast.Store())], value=ast.Constant(value=0), type_comment=None),
+           loop, ast.Return(value=ast.Name(id=acc, ctx=ast.Load()))]
+    ln = body[0].lineno
+    for n in new:
+        for sub in ast.walk(n):
+            if not hasattr(sub, "lineno"):
+                sub.lineno = ln
+                sub.col_offset = 0
+                sub.end_lineno = ln
+                sub.end_col_offset = 0
+    fn.body = [b for b in fn.body if b is not body[0]] + new
+    DESUGARED[fn.name] = "return sum(genexp) -> explicit accumulation loop [L-GENSUM]"
+    return True
+
+
 class Program:
     def __init__(self, repo=REPO, stdlib_abc=None):
         self.repo = repo
@@ -194,6 +235,7 @@ class Program:
         ci = ClassInfo(node.name, node, m)
         for st in strip_docstring(list(node.body)):
             if isinstance(st, ast.FunctionDef):
+                desugar_gen_sum(st)
                 kind, abstract = _decorator_kind(st)
                 fi = FuncInfo(st.name, st, m, ci, kind)
                 fi.abstract = abstract
